@@ -53,6 +53,8 @@ def strategy_(draw, shard):
     case["base"] = draw(st.sampled_from(["normal", "normal", "clipped_normal"]))
     case["return_results"] = draw(st.booleans())
     case["alias"] = draw(st.integers(0, 5)) == 0
+    # forwarded par_bounds: a POI range other than the model's suggested (0, 10)
+    case["poi_hi"] = draw(st.sampled_from([None, None, 15.0, 20.0, 12.5]))
     return case
 
 
@@ -77,6 +79,9 @@ def run_case(case, ctx):
     from pyhf.infer.intervals import upper_limits as UL
 
     spec, fam = build(case)
+    poi_hi = case.get("poi_hi")
+    if poi_hi is not None and fam is not None:
+        _, fam = build(dict(case, bounds=[case["bounds"][0], poi_hi]))  # reference with the forwarded POI range
     level, ts, base = case["level"], case["test_stat"], case["base"]
     general = case["family"] == "G"
     if general:
@@ -91,10 +96,15 @@ def run_case(case, ctx):
     backends.use("numpy", optimizer=pyhf.optimize.scipy_optimizer(tolerance=1e-10))
     try:
         model = pyhf.Model(spec, poi_name="mu")
+        extra = {}
+        if poi_hi is not None:
+            pb = [tuple(map(float, b)) for b in model.config.suggested_bounds()]
+            pb[model.config.poi_index] = (pb[model.config.poi_index][0], poi_hi)
+            extra["par_bounds"] = pb
         if general:
             data = [v for c in model.config.channels for v in case["main"][c]] + list(model.config.auxdata)
             fdata = data
-            kw0 = {"test_stat": ts, "calc_base_dist": base}
+            kw0 = {"test_stat": ts, "calc_base_dist": base, **extra}
             try:
                 r_hi = pyhf.infer.hypotest(9.9, data, model, return_expected_set=True, **kw0)
                 r_lo = pyhf.infer.hypotest(0.02, data, model, return_expected_set=True, **kw0)
@@ -106,8 +116,8 @@ def run_case(case, ctx):
                 ctx.discard("a CLs curve does not cross the level inside the POI bounds")
         else:
             data = list(fdata)
-        kw = {"test_stat": ts, "calc_base_dist": base}
-        nondefault = ts != "qtilde" or base != "normal"
+        kw = {"test_stat": ts, "calc_base_dist": base, **extra}
+        nondefault = ts != "qtilde" or base != "normal" or bool(extra)
         fn = pyhf.infer.intervals.upperlimit if case["alias"] else UL.upper_limit
         sig = f"C09/{case['mode']}"
         scan = None
@@ -117,6 +127,19 @@ def run_case(case, ctx):
         try:
             res = fn(data, model, scan=scan, level=level, return_results=case["return_results"], **kw)
         except pyhf.exceptions.FailedMinimization:
+            if not general:
+                # closed-form family: is any single hypothesis test with the forwarded options failing?
+                lo_b = model.config.suggested_bounds()[model.config.poi_index][0]
+                hi_b = poi_hi if poi_hi is not None else model.config.suggested_bounds()[model.config.poi_index][1]
+                probes = list(scan) if scan is not None else [lo_b + (hi_b - lo_b) * t / 24.0 for t in range(25)]
+                try:
+                    for mu_p in probes:
+                        pyhf.infer.hypotest(float(mu_p), data, model, return_expected_set=True, **kw)
+                except pyhf.exceptions.FailedMinimization:
+                    ctx.discard("FailedMinimization")
+                ctx.fail(f"{sig}/FailedMinimization_although_every_probed_hypotest_succeeds/{case['family']}",
+                         options={k: (v if k != "par_bounds" else [list(b) for b in v]) for k, v in kw.items()})
+                return
             ctx.discard("FailedMinimization")
         except Exception as exc:  # noqa: BLE001
             from vlib.ctx import Discard, innermost_pyhf_frame
@@ -195,11 +218,12 @@ def run_case(case, ctx):
         if pts is not None:
             if case["mode"] == "grid" and [float(p) for p in pts] != [float(p) for p in scan]:
                 ctx.fail(f"{sig}/returned_scan_points_differ")
-            idx = list(range(len(pts)))[:: max(1, len(pts) // 3)]
-            for i in idx:
+            # every returned per-point result is what a fresh hypothesis test with the forwarded options gives
+            # (relative comparison: CLs at the upper end of the range is tiny)
+            for i in range(len(pts)):
                 fresh = cls_at(float(pts[i]))
                 got = [float(results[i][0])] + [float(v) for v in results[i][1]]
-                if any(abs(a - b) > 1e-9 * (1 + abs(b)) for a, b in zip(got, fresh)):
+                if any(abs(a - b) > 1e-6 * abs(b) + 1e-200 and not (a != a and b != b) for a, b in zip(got, fresh)):
                     ctx.fail(f"{sig}/returned_results_ne_fresh_hypotest", point=float(pts[i]), got=got, fresh=fresh,
                              options=kw)
         ctx.label(f"mode={case['mode']}", f"family={case['family']}", f"test_stat={ts}", f"base={base}",
